@@ -19,6 +19,7 @@ import (
 func init() {
 	verifKinds["c20.tracer"] = verifC20Tracer
 	verifKinds["c20.trhist"] = verifC20TrHist
+	verifKinds["c20.trpair"] = verifC20TrPair
 }
 
 var verifEncNames = map[int64]string{1: "identity", 2: "gzip", 3: "br", 4: "zstd", 5: "deflate", 6: "snappy"}
@@ -40,6 +41,26 @@ func verifC20TrHist(args []vsx) vsx {
 		return vL(vS("bad-case"))
 	}
 	return verifHistRun(enc, comp, GetDecompressor(name), args[2].l)
+}
+
+// c20.trpair: enc ctor (opsA) (opsB) (schedule) - as two traces alive at once do it: GetDecompressor(name) called
+// twice, the two histories interleaved (verifPairRun); the compressors are the compression package's
+func verifC20TrPair(args []vsx) vsx {
+	if len(args) != 5 {
+		return vL(vS("bad-case"))
+	}
+	enc, ctor := args[0].i, args[1].i
+	name, ok := verifEncNames[enc]
+	if !ok || (ctor != 2 && ctor != 3) {
+		return vL(vS("bad-case"))
+	}
+	if ctor == 3 {
+		name = strings.ToUpper(name)
+	}
+	return verifPairRun(enc, func() (connect.Compressor, connect.Decompressor, bool) {
+		comp, err := compression.GetCompressor(conformancev1.Compression(enc))
+		return comp, GetDecompressor(name), err == nil
+	}, args[2].l, args[3].l, args[4].l)
 }
 
 // 0 = decodes none of the six (brokenDecompressor or worse)
